@@ -474,11 +474,11 @@ class UnwrapObjid(FunctionContract):
             ("frame", "field"), ("id", "objnum")]
 
     def cases(self, tier):
-        return ["int64", "str"]
+        return ["int64", "str", "bytes"]
 
     def inputs(self):
         ids = A.SArr.symbolic(A.INT64, sym_int("n").z, "objid")
-        return dict(objid=ids if self.case == "int64" else SStrIds(ids, np.str_))
+        return dict(objid=ids if self.case == "int64" else SStrIds(ids, np.str_ if self.case == "str" else np.bytes_))
 
     def requires(self, objid):
         return True
@@ -504,6 +504,7 @@ class UnwrapObjid(FunctionContract):
             ids = np.array([rng.getrandbits(63) for _ in range(n)], dtype=np.int64)
             yield dict(objid=ids)
             yield dict(objid=np.array([str(int(v)) for v in ids]))
+            yield dict(objid=np.array([str(int(v)).encode() for v in ids]))       # byte strings (dtype 'S'), as read from FITS tables
 
 
 def _fmt_pieces(s):
@@ -526,12 +527,12 @@ class UnwrapSpecobjid(FunctionContract):
                    "element-generic: verified for lengths 1 and 2, generalisation rests on numpy ufunc uniformity (A3)"]
 
     def cases(self, tier):
-        return [(t, n, ri, li) for t in ("uint64", "str") for n in (1, 2) for ri in (False, True) for li in (False, True)]
+        return [(t, n, ri, li) for t in ("uint64", "str", "bytes") for n in (1, 2) for ri in (False, True) for li in (False, True)]
 
     def inputs(self):
         t, n, ri, li = self.case
         ids = A.SArr.symbolic(A.UINT64, n, "specobjid")
-        return dict(specObjID=ids if t == "uint64" else SStrIds(ids, np.str_), run2d_integer=ri, specLineIndex=li)
+        return dict(specObjID=ids if t == "uint64" else SStrIds(ids, np.str_ if t == "str" else np.bytes_), run2d_integer=ri, specLineIndex=li)
 
     def call(self, fn, specObjID, run2d_integer, specLineIndex):
         return fn(specObjID, run2d_integer=run2d_integer, specLineIndex=specLineIndex)
@@ -579,6 +580,7 @@ class UnwrapSpecobjid(FunctionContract):
             for ri in (False, True):
                 yield dict(specObjID=ids, run2d_integer=ri, specLineIndex=rng.random() < 0.5)
             yield dict(specObjID=np.array([str(int(v)) for v in ids]), run2d_integer=False, specLineIndex=False)
+            yield dict(specObjID=np.array([str(int(v)).encode() for v in ids]), run2d_integer=False, specLineIndex=False)
 
 
 # ---------------------------------------------------------------------------
